@@ -65,6 +65,9 @@ def gen_script(rnd, tier):
             c03.twin_scenario(rnd, lines, bases, kind, n)
         else:
             c03.twin_merge_scenario(rnd, lines, bases, kind, n)
+    # ... and a question about object lifetime (executor: sub-interfaces that die subscribed, newcomers, a re-basing; model: the
+    # reachable graph still answers as a fresh one)
+    lines.append("fresh :")
     return lines, changed_indirect
 
 
@@ -126,6 +129,10 @@ def oracle(chk, lines, outs):
             if out != "ok":
                 bad.append((i, "__bases__ assignment failed: " + out))
             bases[int(f[1])] = list(a)
+        elif f[0] == "fresh":
+            chk.count("lifetime_churn_rounds")
+            if out != "true":
+                bad.append((i, "interfaces created after others died: " + out))
         elif f[0] == "q1":
             chk.count("single_questions")
             want = a[0] == 0 or a[0] in c03.reach(bases, int(f[1]))
